@@ -41,6 +41,7 @@ func C14(r *core.Run) {
 	rule144(r, ctx)
 	rule145(r)
 	rule146(r)
+	rule147(r)
 	// L2 restricted to uploader state
 	a := newLockset(r)
 	r.Rule("L2", "every access to uploader bookkeeping (buckets, uploadID, uploads, objectIndex, parts) holds uploader.mu")
@@ -513,5 +514,47 @@ func rule146(r *core.Run) {
 			}
 		})
 		r.Check(lo && hi, "R14.6", key(fname(r, pc), "clamps both sides"), r.P.Pos(pc.Pos()), "v < min and v > max tested", "parseClampedInt no longer clamps on both sides")
+	}
+}
+
+// rule147 — upload ids are opaque.
+func rule147(r *core.Run) {
+	r.Rule("R14.7", "values of type UploadID (decimal strings of a counter, not fixed width) are compared only for equality: an ordered string comparison does not follow initiation order ('9' > '10'); positive control: the VersionID comparator (fixed-width ids) is the one ordered id comparison in the repository")
+	n, ctl := 0, 0
+	for _, fn := range r.P.RepoFuncs() {
+		f := fn
+		core.Instrs(fn, func(in ssa.Instruction) {
+			b, ok := in.(*ssa.BinOp)
+			if !ok {
+				return
+			}
+			switch b.Op {
+			case token.LSS, token.LEQ, token.GTR, token.GEQ:
+			default:
+				return
+			}
+			if isNamed(r, b.X.Type(), "gofakes3", "VersionID") {
+				ctl++
+			}
+			isUp := isNamed(r, b.X.Type(), "gofakes3", "UploadID") || isNamed(r, b.Y.Type(), "gofakes3", "UploadID")
+			if !isUp {
+				// converted to string first?
+				s := r.P.SliceOfMany([]ssa.Value{b.X, b.Y}, core.SliceOpts{Depth: -1})
+				if r.P.TypeShort(b.X.Type()) == "string" && (s.Has("field:gofakes3.multipartUpload.ID") || s.Has("field:gofakes3.UploadListMarker.UploadID")) {
+					isUp = true
+				}
+			}
+			if isUp {
+				n++
+				r.Violated("R14.7", key(fname(r, f), "ordered comparison of upload ids", sprintf("#%d", n)), pos(r, b), "upload ids are compared with "+b.Op.String()+": they are variable-width decimal strings, so string order is not initiation order (paging by id duplicates or skips uploads once ids reach two digits)")
+			}
+		})
+	}
+	if ctl == 0 {
+		r.Unresolved("R14.7: positive control failed — the ordered VersionID comparison of the versions skiplist comparator was not seen")
+		return
+	}
+	if n == 0 {
+		r.Held("R14.7", "no ordered comparison of upload ids", "", sprintf("scanned all comparisons; control: %d ordered VersionID comparison(s)", ctl))
 	}
 }
